@@ -148,11 +148,18 @@ func (u *uniq) file(f *File) {
 		case "mart":
 			u.items(t.Items, "ITEM_")
 		case "raw":
+			if t.Raw == "" {
+				break // an empty raw block stays empty
+			}
 			lines := strings.Split(t.Raw, "\n")
 			id := u.next("raw")
 			for k := range lines {
+				cr := ""
+				if strings.HasSuffix(lines[k], "\r") {
+					cr = "\r"
+				}
 				if strings.TrimSpace(lines[k]) != "" || k == len(lines)-1 {
-					lines[k] = fmt.Sprintf("@ %s_%d %s", id, k, strings.TrimSpace(lines[k]))
+					lines[k] = fmt.Sprintf("@ %s_%d %s", id, k, strings.TrimSpace(lines[k])) + cr
 				}
 			}
 			t.Raw = strings.Join(lines, "\n")
@@ -184,7 +191,7 @@ func identitySpans(ps []Piece) map[string]span {
 			id := t[1:strings.Index(t, ":")]
 			m[id] = span{p.Line, p.Line}
 			// the body of a text statement: the statement starts at its keyword
-			for j := i - 1; j >= 0 && j >= i-8; j-- {
+			for j := i - 1; j >= 0 && j >= i-14; j-- {
 				if ps[j].Text == "{" || ps[j].Text == "(" || ps[j].Text == "format" || ps[j].Glue || (j+1 < len(ps) && ps[j+1].Glue) ||
 					ps[j].Text == "global" || ps[j].Text == "local" || ps[j].Text == ")" || strings.HasPrefix(ps[j].Text, "Txt") {
 					continue
@@ -292,12 +299,12 @@ func checkC16(c *Ctx) {
 			continue
 		}
 		outOf[id] = rl.Out + errText(rl.Err)
-		rec := map[string]interface{}{"id": id, "err": rl.Err != nil || rp.Err != nil || rn.Err != nil, "lm": outLines(rl.Out), "plain": outLines(rp.Out),
-			"nopath": outLines(rn.Out), "path": strings.ReplaceAll(path, `\`, `\\`), "nlines": strings.Count(src, "\n") + 1}
+		rec := map[string]interface{}{"id": id, "err": rl.Err != nil || rp.Err != nil || rn.Err != nil, "lm": strings.Split(rl.Out, "\n"), "plain": strings.Split(rp.Out, "\n"),
+			"nopath": strings.Split(rn.Out, "\n"), "path": strings.ReplaceAll(path, `\`, `\\`), "nlines": strings.Count(src, "\n") + 1}
 		markers := []map[string]interface{}{}
-		lines := outLines(rl.Out)
+		lines := strings.Split(rl.Out, "\n")
 		for k, ln := range lines {
-			m := reMarker.FindStringSubmatch(ln)
+			m := reMarker.FindStringSubmatch(strings.TrimRight(ln, "\r"))
 			if m == nil {
 				continue
 			}
@@ -310,6 +317,8 @@ func checkC16(c *Ctx) {
 				ident := ""
 				tr := strings.TrimSpace(nx)
 				switch {
+				case tr == "":
+					// a blank line of a raw block
 				case reLabel.MatchString(nx) && !strings.HasPrefix(nx, "\t"):
 					name := reLabel.FindStringSubmatch(nx)[1]
 					if l, ok := kwLine[name]; ok {
